@@ -32,7 +32,7 @@ partial def specHistory (cfg : Cfg) (tgt : Tgt) (byteSource : Bool) (bs : Bytes)
     match r with
     | [] => (if afterErr then "N" else s!"N@{p}") :: go [] p (k - 1) false afterErr
     | b :: _ =>
-      match Spec.Pos.scanValue (r.length + 2) r p with
+      match Spec.Pos.scanValue (2 * r.length + 4) r p with
       | .eof => s!"eof@{p}" :: go r p (k - 1) true true
       | .dead _ si =>
         -- "a \u escape cut off by the end of input counts as truncation" (C12): a fault inside a \u group whose four
